@@ -37,11 +37,9 @@ EPS = 2.0 ** -52
 # (newest pair valid on J, whatever its sign) and "fails only when no pair is valid on J, q untouched" strictly,
 # for every parameter set; blocks G and H of `excluded_point_ops` are the regression scenario.
 
-# Open finding (known-findings.json): `update_valid` is not the documented acceptance test (LBFGSParams doc comments
-# in lbfgs.hpp): (a) with CBFGS on and force_pos_def = false the code compares |yᵀs| with ε‖p‖^α sᵀs, the documentation
-# yᵀs (so the code stores pairs of negative curvature that the documented cautious-update condition rejects);
-# (b) the code rejects a non-finite yᵀs, which the documentation does not mention.
-KEY_DOCTEST = 'C09-update_valid-differs-from-documented-acceptance-test'
+# Repaired finding C09-update_valid-differs-from-documented-acceptance-test (fixes/C09-update_valid-documentation.diff,
+# a documentation change): the doc comments of LBFGSParams now say that the cautious-BFGS condition compares |yᵀs| when
+# force_pos_def is false and that a non-finite yᵀs is always rejected; `doc_accept` is written from that text.
 
 # Every exemption of the monitors is counted under a name that says which hypothesis of which theorem it stands for
 # (audit-2 addendum); the counts go into the evidence (`extra_stage`).  None of them uses a number computed by the
@@ -297,14 +295,14 @@ def excluded_point_ops():
     ops += [new(2, 2, fpd=0), usy(0, [1.0, 1.0], [1.0, 2.0]), usy(0, [1.0, 0.0], [2.0, -1.0]), app(0.0, q),
             appm(0.0, q, [0, 1]), appm(0.0, q, [1], 0), f'scaley {f2h(-2.0)}', 'dump', app(0.5, q), app(-1.0, q),
             appm(0.5, q, [0, 1]), appm(-1.0, q, [0])]
-    # J. non-finite s / y: un-forced → rejected by the code (isfinite(yᵀs); undocumented, finding KEY_DOCTEST);
+    # J. non-finite s / y: un-forced → rejected (documented: a non-finite yᵀs is always rejected);
     #    forced → stored; then evicted by good pairs
     INF, NAN = math.inf, math.nan
     ops += [new(2, 2), usy(0, [INF, 0.0], [1.0, 1.0]), usy(0, [1.0, 1.0], [NAN, 1.0]), usy(0, [1.0, 0.0], [INF, 1.0]),
             usy(1, [1.0, 0.0], [INF, 1.0]), 'dump', app(1.0, q), appm(1.0, q, [0, 1]),
             usy(0, [1.0, 1.0], [1.0, 2.0]), usy(0, [1.0, 0.0], [2.0, -1.0]), app(-1.0, [1.0, 0.0])]
     # K. CBFGS on, force_pos_def off, negative curvature with large |yᵀs|: the documented condition
-    #    yᵀs/sᵀs ≥ ε‖p‖^α rejects it, the code (which compares |yᵀs|) stores it (finding KEY_DOCTEST)
+    #    is |yᵀs|/sᵀs ≥ ε‖p‖^α (force_pos_def off): stored
     ops += [new(2, 2, ca=2.0, ce=0.25, fpd=0), usy(0, [1.0, 0.0], [-2.0, 1.0], 4.0), 'dump', app(1.0, q)]
     return ops
 
@@ -382,12 +380,14 @@ def doc_accept(P, s, y, pTp, idxs=None):
         min_abs_s      "Reject update if sᵀs ≤ min_abs_s."
         force_pos_def  true:  "rejects the update if yᵀs ≤ min_div_fac · sᵀs"
                        false: "rejecting the update if |yᵀs| ≤ min_div_fac · sᵀs"
-        cbfgs          (ϵ > 0; "Set to zero to disable")  "yᵀs / sᵀs ≥ ϵ ‖g‖^α"   — yᵀs, no absolute value.
+        cbfgs          (ϵ > 0; "Set to zero to disable")  "yᵀs / sᵀs ≥ ϵ ‖g‖^α (with |yᵀs| in place of yᵀs if
+                       force_pos_def is false)"
+        "In both cases, an update with a non-finite yᵀs is rejected."  (→ `doc_accept_float`)
     Returns (decision, ambiguous, abs_case):
       ambiguous — a comparison is within rounding of its threshold *and* the binary64 evaluation of that quantity is
                   not exact (IEEE rounding is not modelled by the theorems);
       abs_case  — the decision is `reject` only because the CBFGS comparison uses yᵀs rather than |yᵀs|
-                  (the point where `update_valid` is known to differ from the documentation, KEY_DOCTEST)."""
+                  (always False now: the documentation and `update_valid` agree)."""
     if idxs is not None:
         s = [s[j] for j in idxs]
         y = [y[j] for j in idxs]
@@ -417,14 +417,14 @@ def doc_accept(P, s, y, pTp, idxs=None):
         m_rhs = Fr(0) if (exact_pw and frhs is not None and Fr(frhs) == rhs) else REL * abs(rhs)
         if abs(abs(yTs) - rhs) <= m_yTs + m_rhs and (m_yTs + m_rhs) > 0:
             amb = True
-        if yTs < rhs:
-            return False, amb, (not P['fpd']) and abs(yTs) >= rhs
+        if (yTs if P['fpd'] else abs(yTs)) < rhs:
+            return False, amb, False
     return True, amb, False
 
 
 def accept_exact(P, s, y, pTp, idxs=None):
     """Compatibility for checks/dirs.py: (decision, ambiguous) of the test AS CODED (|yᵀs| in the CBFGS comparison),
-    i.e. the documented test plus the known deviation KEY_DOCTEST."""
+    i.e. the documented test (they agree since the documentation repair)."""
     d, amb, abs_case = doc_accept(P, s, y, pTp, idxs)
     return (d or abs_case), amb
 
@@ -433,11 +433,13 @@ def doc_accept_float(P, s, y, pTp):
     """The same documented test evaluated literally in binary64 — used only for non-finite s / y, where exact
     rationals do not exist (the documentation says nothing about non-finite data)."""
     yTs, sTs = fdot(y, s), fdot(s, s)
+    if not math.isfinite(yTs):
+        return False
     if sTs <= P['mas']:
         return False
     if (yTs if P['fpd'] else abs(yTs)) <= P['mdf'] * sTs:
         return False
-    if P['ce'] > 0 and not (yTs / sTs >= P['ce'] * math.pow(pTp, P['ca'] / 2)):
+    if P['ce'] > 0 and not ((yTs if P['fpd'] else abs(yTs)) / sTs >= P['ce'] * math.pow(pTp, P['ca'] / 2)):
         return False
     return True
 
@@ -598,7 +600,7 @@ def _monitor(op, out, st):
                     STATS['doc_vs_code_acceptance_mismatch'] += 1
                     return (f'pair with non-finite data stored={stored}, the documented acceptance test evaluated '
                             f'literally gives {dec} (yᵀs={fdot(y, s)!r}, sᵀs={fdot(s, s)!r}): update_valid rejects a '
-                            'non-finite yᵀs, which the documentation does not mention', KEY_DOCTEST)
+                            'non-finite yᵀs')
             if stored:
                 push(st, s, y)
             if o.tok() != '|':
@@ -609,15 +611,6 @@ def _monitor(op, out, st):
         if amb and not forced:
             STATS['exempt_update_threshold_within_rounding'] += 1
         elif stored != (forced or dec):
-            if abs_case and stored:
-                STATS['doc_vs_code_acceptance_mismatch'] += 1
-                m_ = (f'pair stored although the documented acceptance test rejects it: CBFGS on, force_pos_def off, '
-                      f'yᵀs={float(xdot(y, s))!r} < 0: documented condition yᵀs/sᵀs ≥ ϵ‖g‖^α, update_valid compares '
-                      f'|yᵀs| (sᵀs={float(xdot(s, s))!r}, pᵀp={pTp!r})', KEY_DOCTEST)
-                push(st, s, y)                      # the history the real object now has
-                if o.tok() != '|':
-                    return 'malformed output'
-                return check_tail(st, o) or m_
             return (f'pair stored={stored} but forced={forced}, documented acceptance test='
                     f'{dec} (yᵀs={float(xdot(y, s))!r}, sᵀs={float(xdot(s, s))!r})')
         if stored:
@@ -883,8 +876,6 @@ def extra_stage(rep, broken, exe, tier):
              'against the dense matrix again')
     rep.note(f'{STATS["masked_negative_ratio"]} apply_masked() calls whose documented scaling (newest pair valid on J) is '
              'negative (force_pos_def = false) were checked strictly against the dense operator with that scaling')
-    rep.note(f'open finding {KEY_DOCTEST}: {STATS["doc_vs_code_acceptance_mismatch"]} updates decided differently from the '
-             'documented acceptance test')
     missing = [k for k in REQUIRED if not STATS.get(k)]
     rep.cov['c09_required_classes_missing'] = missing
     if missing and exe:
